@@ -105,7 +105,7 @@ SQ = 'trait/seq/seq.go'; PR = 'trait/pair/pair.go'
 mut('C14-plus-returns-early', 'C14', SQ, "\tif !hasNext && plus.rhs != nil {\n\t\tplus.Seq, plus.rhs = plus.rhs, nil\n\t\treturn true\n\t}", "\tif !hasNext && plus.rhs != nil {\n\t\tplus.Seq, plus.rhs = plus.rhs, nil\n\t\treturn plus.Seq.Next()\n\t}", 'first element of the right operand is skipped')
 mut('C14-filter-one-miss', 'C14', SQ, "\tfor {\n\t\tif !seq.Seq.Next() {\n\t\t\treturn false\n\t\t}\n\n\t\tif seq.f(seq.Value()) {\n\t\t\treturn true\n\t\t}\n\t}\n}\n\n// ForEach", "\tfor i := 0; i < 2; i++ {\n\t\tif !seq.Seq.Next() {\n\t\t\treturn false\n\t\t}\n\n\t\tif seq.f(seq.Value()) {\n\t\t\treturn true\n\t\t}\n\t}\n\treturn false\n}\n\n// ForEach", 'Filter gives up after two consecutive misses')
 mut('C14-dropwhile-drops-one-more', 'C14', SQ, "\tfor {\n\t\tif !f(seq.Value()) {\n\t\t\treturn seq\n\t\t}\n\n\t\tif !seq.Next() {\n\t\t\treturn nil\n\t\t}\n\t}\n}\n\n// Filter values", "\tdropped := 0\n\tfor {\n\t\tif !f(seq.Value()) {\n\t\t\tif dropped >= 3 && seq.Next() {\n\t\t\t\treturn seq\n\t\t\t}\n\t\t\treturn seq\n\t\t}\n\t\tdropped++\n\n\t\tif !seq.Next() {\n\t\t\treturn nil\n\t\t}\n\t}\n}\n\n// Filter values", 'after dropping three or more, one more element is lost')
-mut('C14-foreach-swallows-last-error', 'C14', SQ, "\tfor has := seq != nil; has; has = seq.Next() {\n\t\tif err := f(seq.Value()); err != nil {\n\t\t\treturn err\n\t\t}\n\t}\n\n\treturn nil\n}\n\n// Map transform", "\tvar err error\n\tfor has := seq != nil; has && err == nil; has = seq.Next() {\n\t\terr = f(seq.Value())\n\t}\n\n\treturn err\n}\n\n// Map transform", 'ForEach advances the iterator once more after the failing callback (harmless) - must stay green')
+mut('C14-foreach-swallows-last-error', 'C14', SQ, "\tfor has := seq != nil; has; has = seq.Next() {\n\t\tif err := f(seq.Value()); err != nil {\n\t\t\treturn err\n\t\t}\n\t}\n\n\treturn nil\n}\n\n// Map transform", "\tvar err error\n\tfor has := seq != nil; has && err == nil; has = seq.Next() {\n\t\terr = f(seq.Value())\n\t}\n\n\treturn err\n}\n\n// Map transform", 'ForEach advances the iterator once more after the failing callback: the traversal does not stop with the first error (seeds C15-E, C14-G; classified as equivalent until round 4, see DESIGN 10.15)')
 mut('C15-map-stale-key', 'C15', PR, "func (plus *plus[K, V]) Next() bool {\n\thasNext := plus.Seq.Next()\n\n\tif !hasNext && plus.rhs != nil {\n\t\tplus.Seq, plus.rhs = plus.rhs, nil\n\t\treturn true\n\t}", "func (plus *plus[K, V]) Next() bool {\n\thasNext := plus.Seq.Next()\n\n\tif !hasNext && plus.rhs != nil {\n\t\tplus.Seq, plus.rhs = plus.rhs, nil\n\t\treturn plus.Seq != nil\n\t}")
 mut('C15-toseq-skips-after-nil', 'C15', PR, "func (join *toSeq[K1, V1, V2]) Next() bool {\n\tif !join.Seq.Next() {\n\t\tfor {\n\t\t\tif !join.lhs.Next() {\n\t\t\t\treturn false\n\t\t\t}\n\n\t\t\tjoin.Seq = join.rhs(join.lhs.Key(), join.lhs.Value())\n\t\t\tif join.Seq != nil {\n\t\t\t\treturn true\n\t\t\t}\n\t\t}\n\t}", "func (join *toSeq[K1, V1, V2]) Next() bool {\n\tif !join.Seq.Next() {\n\t\tfor {\n\t\t\tif !join.lhs.Next() {\n\t\t\t\treturn false\n\t\t\t}\n\n\t\t\tjoin.Seq = join.rhs(join.lhs.Key(), join.lhs.Value())\n\t\t\tif join.Seq != nil {\n\t\t\t\treturn true\n\t\t\t}\n\t\t\tif !join.lhs.Next() {\n\t\t\t\treturn false\n\t\t\t}\n\t\t}\n\t}", 'ToSeq skips the element after a nil result')
 mut('C15-fromseq-first-only', 'C15', PR, "\tjoin := &fromSeq[K1, K2, V2]{lhs: lhs, rhs: rhs}\n\tfor {\n\t\tjoin.Seq = join.rhs(join.lhs.Value())\n\t\tif join.Seq != nil {\n\t\t\treturn join\n\t\t}\n\n\t\tif !join.lhs.Next() {\n\t\t\treturn nil\n\t\t}\n\t}", "\tjoin := &fromSeq[K1, K2, V2]{lhs: lhs, rhs: rhs}\n\tjoin.Seq = join.rhs(join.lhs.Value())\n\tif join.Seq != nil {\n\t\treturn join\n\t}\n\treturn nil", 'FromSeq does not skip leading nil results')
@@ -160,7 +160,7 @@ mut('C09-partition-nil-on-error', 'C09', FK, "\t\tsel := func(x bool, err error)
 mut('C06-filter-returns-on-error', 'C06', P, "\t\t\tif take, err := f.Apply(a); take && err == nil {\n\t\t\t\tselect {\n\t\t\t\tcase out <- a:\n\t\t\t\tcase <-ctx.Done():\n\t\t\t\t\treturn\n\t\t\t\t}\n\t\t\t}\n\t\t}\n\t}()\n\n\treturn out\n}\n\n// ForEach", "\t\t\ttake, err := f.Apply(a)\n\t\t\tif err != nil {\n\t\t\t\tselect {}\n\t\t\t}\n\t\t\tif take {\n\t\t\t\tselect {\n\t\t\t\tcase out <- a:\n\t\t\t\tcase <-ctx.Done():\n\t\t\t\t\treturn\n\t\t\t\t}\n\t\t\t}\n\t\t}\n\t}()\n\n\treturn out\n}\n\n// ForEach", 'Filter blocks forever when its predicate returns an error')
 mut('C14-map-global-scratch', 'C14', SQ, "func (seq fmap[A, B]) Value() B {\n\treturn seq.f(seq.Seq.Value())\n}", "var mapScratch any\n\nfunc (seq fmap[A, B]) Value() B {\n\tmapScratch = seq.f(seq.Seq.Value())\n\treturn mapScratch.(B)\n}", 'a package-level scratch variable: visible only when independent iterators are used from several goroutines')
 
-EQUIVALENT = {'C02-no-container-check', 'C04-codec-get-skips-fmap', 'C06-throttle-data-no-ctx', 'C15-map-stale-key', 'C05-filter-or', 'C05-partition-swapped-capacity', 'C10-empty-counted-per-worker', 'C14-foreach-swallows-last-error', 'C19-slice-cons-append', 'C04-setter-get-leaks'}
+EQUIVALENT = {'C02-no-container-check', 'C04-codec-get-skips-fmap', 'C06-throttle-data-no-ctx', 'C15-map-stale-key', 'C05-filter-or', 'C05-partition-swapped-capacity', 'C10-empty-counted-per-worker', 'C19-slice-cons-append', 'C04-setter-get-leaks'}
 
 
 def run(m, tier):
